@@ -29,6 +29,24 @@ NAMES = ['a', 'b', 'c', 'ab', 'a.txt', 'b.txt', '.h', '.hx', 'a/', 'a/b', 'd/a.t
          '|', '!b', 'a*', '(a)', 'a.t', 'ab.t', '.', 'd/', '!(a)']
 
 
+# the sign grid: every way a pattern can start, under every subset of the flags that decide its sign
+SIGN_PREFIX = ['!', '-', '\\!', '\\-', '']
+SIGN_BODY = ['a', '(a)', '(a|b)', '*(a)', '@(a)', '(a', 'a)', '(', '']
+SIGN_NAMES = ['a', 'b', 'aa', '(a)', '(a|b)', '(a', 'a)', '(', '!a', '-a', '!(a)', '-(a)', '!(a|b)', '-(a|b)', '!*(a)', '-*(a)', '!@(a)',
+              '-@(a)', '!(a', '-(a', '!a)', '-a)', '!(', '-(', '!', '-']
+
+
+def sign_grid(F, G):
+    """(api name, patterns, flags) for ['*', prefix+body] under all 8 subsets of {NEGATE, MINUSNEGATE, EXTMATCH}"""
+    for apiname in API_NAMES:
+        mod = F if apiname.startswith('fnmatch') else G
+        for sub in range(8):
+            flags = (mod.NEGATE if sub & 1 else 0) | (mod.MINUSNEGATE if sub & 2 else 0) | (mod.EXTMATCH if sub & 4 else 0)
+            for pre in SIGN_PREFIX:
+                for body in SIGN_BODY:
+                    yield apiname, ['*', pre + body], flags, pre, body
+
+
 def gen_list(R, maxp=4, maxe=3):
     k = R.choice([0, 1, 1, 2, 2, 3, 4][:maxp + 3])
     pats = [R.choice(SIGN) + R.choice(BASE) for _ in range(k)]
@@ -150,7 +168,9 @@ def run(ck: Check) -> int:
         sr.note = (f'K4: {n} random lists (0-4 patterns incl. exact duplicates, exclude= None or 0-3 patterns) over {len(BASE)} base '
                    'patterns x sign/escape prefixes {"", !, -, \\!, \\-, !!, !-, -!} x random subsets of {NEGATE, MINUSNEGATE, NEGATEALL, '
                    'SPLIT, BRACE, EXTMATCH, DOTMATCH, NODIR, GLOBSTAR} x {fnmatch, filter, compile, translate, globmatch, globfilter} x '
-                   f'{len(NAMES)} names, str and bytes; compared with the Lean loops: outcome, regex texts, match bits')
+                   f'{len(NAMES)} names, str and bytes; PLUS the sign grid: [*, prefix+body] for prefix in {{!, -, \\!, \\-, none}} x '
+                   f'{len(SIGN_BODY)} bodies (incl. `(`-initial ones) x all 8 subsets of {{NEGATE, MINUSNEGATE, EXTMATCH}} x the 8 APIs x '
+                   f'{len(SIGN_NAMES)} names; compared with the Lean loops: outcome, regex texts, match bits')
         seen = set()
         for k in range(n):
             pats, excl = gen_list(R, 4 if not deep else 5, 3 if not deep else 4)
@@ -182,7 +202,20 @@ def run(ck: Check) -> int:
             elif len(sr.samples) < 3 and real.get('bits') and '1' in real['bits'] and excl and len(pats) > 1:
                 sr.samples.append({'api': api.name, 'patterns': pats, 'exclude': excl, 'flags': flags,
                                    'accepted': [nm for nm, b in zip(names, real['bits']) if b == '1']})
-            records.append((api, pats, excl, flags, isb, real, d is None))
+            records.append((api, pats, excl, flags, isb, real, d is None, names, None))
+        # deterministic part: the sign grid
+        for apiname, pats, flags, pre, body in sign_grid(F, G):
+            api = K.API_BY_NAME[apiname]
+            real = real_bits(w, api, pats, None, flags, SIGN_NAMES, False)
+            mo, line = w.model(drv, api, pats, None, flags, 1000, False, SIGN_NAMES)
+            sr.evaluations += len(SIGN_NAMES)
+            seen.add((api.name, tuple(pats), None, flags, False))
+            d = K.compare(api, real, mo, False)
+            sr.histogram['sign-grid'] = sr.histogram.get('sign-grid', 0) + 1
+            if d:
+                sr.disagree({'stream': 'K4-lists(sign grid)', 'api': api.name, 'patterns': pats, 'exclude': None, 'flags': flags,
+                             'bytes': False, 'difference': d})
+            records.append((api, pats, None, flags, False, real, d is None, SIGN_NAMES, (pre, body)))
         sr.distinct = len(seen)
     if drv is not None:
         ck.stream('K4-lists', s_k4)
@@ -190,31 +223,51 @@ def run(ck: Check) -> int:
     def s_prop(sr):
         sr.note = ('the property on every K4 call: list result == (some inclusion piece matches as a single pattern) and not (some '
                    'exclusion piece matches as a single pattern with DOTMATCH) [and not a directory name under NODIR]; pieces by the '
-                   'real bracex / WcSplit, signs by an independent rule; NEGATEALL default = `**`; plus order / duplication invariance')
+                   'real bracex / WcSplit, signs by an independent rule; NEGATEALL default = `**`; plus order / duplication invariance; '
+                   'on the sign grid additionally: inline exclusion == the same call with exclude=[body]')
         orc = Oracle(w)
-        for api, pats, excl, flags, isb, real, agree in records:
+        W = w.W
+        for api, pats, excl, flags, isb, real, agree, names, grid in records:
             if real['kind'] != 'ok' or real.get('bits') is None:
                 continue
-            exp, info = orc.verdicts(api.module, pats, excl, flags, NAMES)
-            sr.evaluations += len(NAMES)
+            exp, info = orc.verdicts(api.module, pats, excl, flags, names)
+            sr.evaluations += len(names)
             if exp != real['bits']:
-                bad = [nm for nm, a, b in zip(NAMES, exp, real['bits']) if a != b]
+                bad = [nm for nm, a, b in zip(names, exp, real['bits']) if a != b]
                 ck.report(Failing(f'{api.name}: list result differs from the combination of single-pattern results for names {bad[:4]}',
-                                  {'api': api.name, 'patterns': pats, 'exclude': excl, 'flags': flags, 'bytes': isb, 'names': NAMES,
-                                   **info}, exp, real['bits'], site='wcmatch/_wcparse.py:611-666,698-750; _wcmatch.py:233-246'), None)
+                                  {'api': api.name, 'patterns': pats, 'exclude': excl, 'flags': flags, 'bytes': isb, 'names': names,
+                                   **info}, exp, real['bits'], site='wcmatch/_wcparse.py:468-476,611-666,698-750; _wcmatch.py:233-246'), None)
                 sr.histogram['FAIL'] = sr.histogram.get('FAIL', 0) + 1
             else:
                 sr.histogram['holds'] = sr.histogram.get('holds', 0) + 1
+            if grid is not None:
+                # `exclude=` is equivalent to inline negation: where the sign rule makes prefix+body an
+                # exclusion, the call must equal the same call with exclude=[body] (and no NEGATE)
+                pre, body = grid
+                N, M, E = bool(flags & W.NEGATE), bool(flags & W.MINUSNEGATE), bool(flags & W.EXTMATCH)
+                is_neg = N and ((M and pre == '-') or (not M and pre == '!' and not (E and body[:1] == '(')))
+                if is_neg:
+                    r2 = real_bits(w, api, pats[:1], [body], flags & ~(W.NEGATE | W.MINUSNEGATE), names, isb)
+                    sr.evaluations += len(names)
+                    if r2['kind'] == 'ok' and r2.get('bits') != real['bits']:
+                        bad = [nm for nm, a, b in zip(names, r2['bits'], real['bits']) if a != b]
+                        ck.report(Failing(f'{api.name}: inline exclusion {pats[1]!r} is not equivalent to exclude={body!r} (names {bad[:4]})',
+                                          {'api': api.name, 'patterns': pats, 'exclude': None, 'flags': flags, 'bytes': isb,
+                                           'names': names, 'equivalent_call': {'patterns': pats[:1], 'exclude': [body]}},
+                                          r2['bits'], real['bits'], site='wcmatch/_wcparse.py:468-476'), None)
+                        sr.histogram['FAIL-exclude-eq-inline'] = sr.histogram.get('FAIL-exclude-eq-inline', 0) + 1
+                    else:
+                        sr.histogram['exclude-eq-inline holds'] = sr.histogram.get('exclude-eq-inline holds', 0) + 1
             # order and repetition never matter
             if len(pats) > 1 and sr.evaluations % 3 == 0:
                 perm = list(reversed(pats)) + [pats[0]]
                 pex = None if excl is None else list(reversed(excl)) + excl[:1]
-                r2 = real_bits(w, api, perm, pex, flags, NAMES, isb)
-                sr.evaluations += len(NAMES)
+                r2 = real_bits(w, api, perm, pex, flags, names, isb)
+                sr.evaluations += len(names)
                 if r2['kind'] == 'ok' and r2.get('bits') != real['bits']:
                     ck.report(Failing(f'{api.name}: result changes when the list is reversed and its first pattern repeated',
                                       {'api': api.name, 'patterns': pats, 'exclude': excl, 'permuted': perm, 'flags': flags,
-                                       'bytes': isb, 'names': NAMES}, real['bits'], r2.get('bits')), None)
+                                       'bytes': isb, 'names': names}, real['bits'], r2.get('bits')), None)
                     sr.histogram['FAIL-perm'] = sr.histogram.get('FAIL-perm', 0) + 1
                 else:
                     sr.histogram['perm-holds'] = sr.histogram.get('perm-holds', 0) + 1
